@@ -116,7 +116,9 @@ def cases(draw, max_rounds=6):
     rounds = draw(st.lists(rnd, min_size=1, max_size=max_rounds))
     tail = draw(st.lists(step(), max_size=2))
     steps = [s for r in rounds for s in r] + tail
-    return {"opts": opts, "steps": steps}
+    # echo: Tor announces every accepted SETCONF with a CONF_CHANGED event to every subscribed controller -
+    # including the one that sent it (TorConfig subscribes), and the event precedes the 250
+    return {"opts": opts, "steps": steps, "echo": draw(st.sampled_from([False, True, True]))}
 
 
 # --------------------------------------------------------------------------- reference model
@@ -151,7 +153,7 @@ class _Run(object):
         from txtorcon import TorConfig
         self.res = res
         self.case = case
-        self.sim = simconf.SimConf(case["opts"], defaults_supported=True)
+        self.sim = simconf.SimConf(case["opts"], defaults_supported=True, echo=bool(case.get("echo", False)))
         self.pipe, self.srv = bootstrapped_pipe(self.sim.handler)
         w = Watch(TorConfig.from_protocol(self.pipe.proto))
         self.pipe.pump()
@@ -474,9 +476,24 @@ class _Run(object):
                 if not ok:
                     return
                 if not cm.same_view(m.typ, m.saved, got):
+                    torview = cm.initial_view(self.sim, m.name)
+                    if self.case.get("echo") and m.typ in ("CommaList", "RouterList") and \
+                            cm.same_view(m.typ, torview, got):
+                        # the statement's per-element wire form and Tor's last-wins semantics for comma lists
+                        # disagree (DESIGN.md section 4, C10); when Tor announces what it stored, the view
+                        # follows Tor - accepted, and the model continues from Tor's value
+                        res.label("commalist-view-follows-tor-after-echo")
+                        m.saved = torview
+                        m.seen = [m.saved]
+                        continue
                     res.bad("read-after-save-wrong", "%s reads %r after the acknowledged save, saved value %r" % (
                         m.name, got, m.saved))
                     self.dead = True
+                elif m.is_list and self.case.get("echo"):
+                    # same view; after Tor's announcement the elements are Tor's strings (a local int 9050 reads
+                    # back as '9050'): continue the model from the elements actually there
+                    m.saved = list(got)
+                    m.seen = [m.saved]
             for name in sorted(sent_ok):
                 m = self.opts[name]
                 if m.desync:
@@ -632,15 +649,16 @@ def inflight_cases():
         st.tuples(st.just("assign"), st.just("Log"), st.lists(st.sampled_from(_LOG_LINES), min_size=1, max_size=3)),
     )
     op = st.one_of(scalar, lst).map(list)
-    return st.builds(lambda pre, during, acc, after: {"pre": pre, "during": during, "accept": acc, "after": after},
+    return st.builds(lambda pre, during, acc, after, echo: {"pre": pre, "during": during, "accept": acc,
+                                                            "after": after, "echo": echo},
                      st.lists(op, min_size=1, max_size=3), st.lists(op, max_size=3), st.booleans(),
-                     st.lists(op, max_size=2))
+                     st.lists(op, max_size=2), st.booleans())
 
 
 def drive_inflight(case):
     from txtorcon import TorConfig
     res = Result()
-    sim = simconf.SimConf(INFLIGHT_OPTS, defaults_supported=True)
+    sim = simconf.SimConf(INFLIGHT_OPTS, defaults_supported=True, echo=bool(case.get("echo", False)))
     hold = {"on": False, "held": []}
 
     def handler(line):
@@ -697,6 +715,12 @@ def drive_inflight(case):
                 return r
         return None
 
+    if case.get("echo") and any(op[0] != "assign" and op[1] in {p[1] for p in case["pre"]} for op in case["during"]):
+        # a list is edited in place while the SETCONF carrying that same option is unanswered, and Tor then
+        # announces (CONF_CHANGED) the value it stored: local edit and announcement conflict, and which of the two
+        # the view should show afterwards is not defined by the statement -> excluded by construction
+        res.excluded.append("in-place-edit-of-option-in-flight-then-echo")
+        return res
     r = run_ops(case["pre"], "pre")
     if r == "ambiguous":
         res.excluded.append("in-place-edit-while-assignment-pending")
